@@ -35,15 +35,30 @@ class FunctionReport:
         self.writes_seen = set()
         self.entropy = []
 
+    def canary_status(self):
+        """a canary (deliberately false clause) must be refuted on at least one path"""
+        st = {}
+        for o in self.obligations:
+            if o.kind == "canary":
+                st[o.clause.name] = st.get(o.clause.name, False) or o.status == "refuted"
+        return st
+
     def ok(self):
-        return not self.unsupported and not self.errors and all(o.status == "discharged" for o in self.obligations if o.kind != "canary") \
-            and all(o.status == "refuted" for o in self.obligations if o.kind == "canary")
+        return not self.unsupported and not self.errors and len(self.obligations) > 0 \
+            and any(po[2] == "return" for po in self.path_outcomes) \
+            and all(o.status == "discharged" for o in self.obligations if o.kind != "canary") \
+            and all(self.canary_status().values())
 
 
 def exc_matches(repo, raised, declared):
     """is exception class `raised` a subclass of `declared` (names)"""
-    if raised == declared:
+    if raised == declared or raised.split(".")[-1] == declared.split(".")[-1]:
         return True
+    if "." not in declared and declared not in BUILTIN_EXC:
+        for m in repo.modules.values():
+            if declared in m.classes:
+                declared = m.classes[declared].qual
+                break
     rb, db = BUILTIN_EXC.get(raised), BUILTIN_EXC.get(declared)
     if rb is not None and db is not None:
         return issubclass(rb, db)
@@ -174,6 +189,10 @@ class Verifier:
             return ip.lookup_global(gname, self.repo.modules[modname])
         if t.startswith("class:"):
             return SClass(self.repo.find_class(t[6:]))
+        if t.startswith("alt:"):
+            alts = t[4:].split("|")
+            k = ctx.choose(len(alts), "alt-of-" + label)
+            return self.mkval(ip, alts[k], label, owner)
         if t.startswith("obj:"):
             names = t[4:].split("|")
             k = ctx.choose(len(names), "class-of-" + label)
@@ -192,13 +211,16 @@ class Verifier:
         o = ctx.alloc(cls, lazy=True, fresh=False, label=label)
         ho = ctx.obj(o)
         for k, v in binds:
-            if v == "$owner":
-                ho.fields[k] = owner
+            if v.startswith("$owner"):
+                x = owner
+                for part in v.split(".")[1:]:
+                    x = ip.getattr(x, part, True)
+                ho.fields[k] = x
             else:
                 raise ContractError("bind %s" % v)
         # optional fields
-        opt = self.reg.shapes.get(ho.clsname() + "?", {})
-        self.assume_invariants(ip, o, label)
+        if not getattr(self, "_skip_inv", False):
+            self.assume_invariants(ip, o, label)
         return o
 
     def assume_invariants(self, ip, o, label):
@@ -241,6 +263,7 @@ class Verifier:
                 raise PathEnd("callee-type")
         saved_snap, saved_old = ip.pre_snapshot, ip.use_old
         ip.pre_snapshot, ip.use_old = None, False
+        pushed = False
         try:
             for cl in c.pre:
                 g = ip.truth(ip.eval(cl.expr_ast, fr, True))
@@ -252,6 +275,8 @@ class Verifier:
                 self.oblige(ip, "%s/measure-decreases" % site, "measure", None, mkbool(z3.And(m >= 0, m < self.cur_measure)))
             snap = ctx.snapshot()
             ip.pre_snapshot = snap
+            ip.all_snaps.append(snap)
+            pushed = True
             # exceptional outcomes
             for cl in c.exc:
                 ip.use_old = True
@@ -289,9 +314,11 @@ class Verifier:
             if isinstance(res, SObj):
                 self.assume_invariants(ip, res, "res")
             if ctx.check() == z3.unsat:
-                raise PathEnd("infeasible")
+                raise PathEnd("infeasible-after-" + site)
             return res
         finally:
+            if pushed:
+                ip.all_snaps.pop()
             ip.pre_snapshot, ip.use_old = saved_snap, saved_old
 
     def type_ok(self, ip, v, t):
@@ -321,6 +348,8 @@ class Verifier:
         if t.startswith("list:"):
             parts = t[5:].split(",")
             return isinstance(v, list) and len(v) == len(parts) and all(self.type_ok(ip, x, p) for x, p in zip(v, parts))
+        if t.startswith("alt:"):
+            return any(self.type_ok(ip, v, a) for a in t[4:].split("|"))
         if t in ("entropy", "entropy_forbidden", "callable"):
             return isinstance(v, (SEntropy, SFunc))
         if t == "bytelist":
@@ -369,7 +398,11 @@ class Verifier:
         t = c.ret_type
         if t is None:
             raise ContractError("%s: no return type" % c.qual)
-        return self.mkval(ip, t, "res.%s.%d" % (c.qual.split(".")[-1], ip.ctx.nsolve))
+        self._skip_inv = True
+        try:
+            return self.mkval(ip, t, "res.%s.%d" % (c.qual.split(".")[-1], ip.ctx.nsolve))
+        finally:
+            self._skip_inv = False
 
     def definitional(self, ip, cl, fr):
         """ensures clauses of the form `result.f is X` / `result is X` are bindings, not formulas"""
@@ -628,6 +661,7 @@ class Verifier:
                     self.cur_measure = I(ip.eval(ast.parse(c.measure, mode="eval").body, fr, True))
                 ctx.input_syms = dict(env)
                 ip.pre_snapshot = ctx.snapshot()
+                ip.all_snaps = [ip.pre_snapshot]
                 pre_env = dict(env)
                 self.run_anchor_entry(ip, c, finfo, env)
                 try:
